@@ -9,7 +9,7 @@ CLAIMED = {
    text="Seeded histories (20-400 operations: insert/remove/get/empty/clear, duplicates and absent removes, value lengths 0-5000) on db, mutex_db and olc_db x {uint64, byte-string keys} are executed "
         "operation by operation next to a std::map model; every result is compared, earlier value views are re-read after every later call, and the allocation ledger + ASan poison flag a premature free. "
         "mutex_db/olc_db histories are issued from 2-3 simulated threads with quiescent states, pause/resume and thread exit between calls, so deferred reclamation really frees nodes at varying points. "
-        "For plain db the simulator degenerates to a seeded model-based run (no schedule dimension). Histories passing through non-representable byte-string key sets are the known finding D1.",
+        "For plain db the simulator degenerates to a seeded model-based run (no schedule dimension). One get in five is preceded by a look / modify / look / modify back / look sequence on the same key in straight-line code through a non-inlined scalar helper (what the compiler may assume about a lookup - purity attributes - decides whether the lookups are merged). Histories passing through non-representable byte-string key sets are the known finding D1.",
    note="Key sets come from seeded shapes (1-4 branching positions, alphabets straddling node-class boundaries, dense ranges, sparse keys; byte-string keys up to 24 bytes incl. deep shapes that branch beyond byte 8, kept representable step by step with the reference radix tree); oracle = std::map. " + SC,
    technique="deterministic simulation: seeded operation histories across simulated threads, checked against a map model + allocation ledger"),
  "C02": dict(engine="seqsim", level="exploration", design="DESIGN.md §6 C02",
@@ -51,7 +51,7 @@ CLAIMED = {
  "C08": dict(engine="seqsim", level="fault_enumeration", design="DESIGN.md §6 C08",
    text="For every insert and remove of generated histories (three index classes, OLC under one registered thread, both key kinds), and for qsbr_resume, qsbr_thread start and on_next_epoch_deallocate at the "
         "QSBR API: fail allocation k for k = 1, 2, ... until the operation completes, so every allocation point is failed exactly once without hard-coded counts; plus over-long key/value length errors. "
-        "After each failure: exception type, all entries readable with equal bytes, full scan, every statistics getter, live-allocation set and QSBR getters unchanged; the un-faulted repeat returns the model's "
+        "After each failure: exception type, all entries readable with equal bytes, full scan, every statistics getter, live-allocation set and QSBR getters (incl. the thread's current-interval deallocation size) unchanged; the un-faulted repeat returns the model's "
         "result; hooks stay active so a lock left held is reported at the next operation.",
    note="Allocation failure delivered through the --wrap=posix_memalign seam and the harness' operator new; histories <= 120 operations.",
    technique="deterministic simulation: exhaustive allocation-failure enumeration per operation through link-time seams"),
@@ -81,13 +81,13 @@ CLAIMED = {
  "C16": dict(engine="seqsim", level="exploration", design="DESIGN.md §6 C16",
    text="The same seeds of C01/C02-style histories (uint64 keys, byte-string keys <= 8 bytes; olc_db histories with scans followed by removals issued across simulated threads) run in {AVX2, SSE4.1} x {stats on, off} x "
         "{assertions on, NDEBUG} x {PAUSE, EMPTY} builds (quick: a pairwise-covering subset of 6; thorough: all 16); per-seed hashes of the result/scan trace must agree across all builds and the counter hashes across "
-        "the statistics builds; every build is also model-checked by itself and assertion failures are reported with the configuration named.",
+        "the statistics builds; every build is also model-checked by itself (including the straight-line look / modify / look sequences of C01, which only optimised builds can get wrong) and assertion failures are reported with the configuration named.",
    note="Matrix builds are g++ -O2 without sanitizers; memory-use counters are excluded from the cross-build hash (node sizes legitimately differ).",
    technique="deterministic simulation: identical seeded executions replayed across build configurations, differential + model oracle"),
  "C17": dict(engine="ptrsim", level="exploration", design="DESIGN.md §6 C17",
    text="An interpreter over qsbr_ptr<std::byte> / qsbr_ptr_span<std::byte> slots and qsbr_ptr<uint32_t> / qsbr_ptr_span<uint32_t> (sizes and arithmetic in elements, not bytes) (construct, default, copy, move, copy-/move-assign, ++ -- += -= + -, difference, comparisons, dereference/index/write, destroy) on 2-3 QSBR threads, "
         "each step mirrored on a raw-pointer shadow; probes call quiescent()/qsbr_pause() under setjmp with the harness' __assert_fail jumping back: in assertion builds a probe must be rejected iff the probing thread's "
-        "shadow multiset of live non-null wrappers is non-empty; any other assertion is a violation; null wrappers (default-constructed, moved-from) are copied, assigned and destroyed while the thread is paused. NDEBUG builds check the equivalence half.",
+        "shadow multiset of live non-null wrappers is non-empty; any other assertion is a violation; null wrappers (default-constructed, moved-from) are copied, assigned and destroyed while the thread is paused. One program in 16 first runs an allocation-failure probe in a forked child (a wrapper operation with allocation #1-#3 inside it failing: it must not complete - std::terminate - or the wrapper must still be tracked). NDEBUG builds check the equivalence half.",
    note="The schedule dimension is thin (per-thread registries; switches at operation boundaries).",
    technique="deterministic simulation: seeded interpreter with raw-pointer shadow model and assertion-intercepting liveness probes"),
 }
